@@ -378,6 +378,9 @@ def step (st : DSt) (toks : List String) : DSt × String :=
   -- the registration route (register_function / engulf_tool with a SimpleTool or a foreign object / the constructor's
   -- `tools=`) makes no difference to the registry
   | ["tool", hn, hl, caps, beh, _route] => (regTool st hn hl caps beh, "ok")
+  -- `engine.timeout` re-assigned on the live engine: with 0 / 0.0 / None the efficiency computation of a SUCCESS raises
+  -- (ZeroDivisionError / TypeError) — inside the handler, so the call ends as a counted failure
+  | ["retimeout", k] => ({ st with cfg := { st.cfg with timeoutZero := k != "pos" } }, "ok ## retimeout")
   | ["untool", hn] =>
     let n := strOfHex hn
     ({ st with cfg := { st.cfg with tools := st.cfg.tools.filter (·.name ≠ n) },
